@@ -283,7 +283,19 @@ class ExprMixin:
 
     def _seq_literal(self, e, st, fx, mk):
         if any(isinstance(x, ast.Starred) for x in e.elts):
-            raise OutOfReach("starred in literal")
+            hook = getattr(self, "starred_literal_hook", None)
+            if hook is None or not all(isinstance(x, ast.Starred) for x in e.elts):
+                raise OutOfReach("starred in literal")
+            out = []
+            for r in self.ev_many([x.value for x in e.elts], st, fx):
+                if r.exc is not None:
+                    out.append(r)
+                    continue
+                res = hook(self, e, r.val, r.st, fx)
+                if res is None:
+                    raise OutOfReach("starred in literal")
+                out.extend(res)
+            return out
         return [Ev(r.st, mk(r.st, r.val)) if r.exc is None else r for r in self.ev_many(e.elts, st, fx)]
 
     def ex_Dict(self, e, st, fx):
